@@ -113,6 +113,8 @@ def main(argv=None):
         print(f"VIOLATION property={ctx.pid} replay={v['replay']}")
         print("   ", v.get("what"))
     if res.violations:
+        for m in res.inconclusive[:5]:
+            print("INCONCLUSIVE (also):", m[:300])
         return 1
     if res.inconclusive:
         for m in res.inconclusive[:10]:
